@@ -15,7 +15,7 @@ DRIVERS = {
     "C05": ("gbv.props.c05", {}),
     "C06": ("gbv.props.fields", {}), "C15": ("gbv.props.fields", {}),
     "C14": ("gbv.props.c14", {}), "C20": ("gbv.props.c20", {}),
-    "C18": ("gbv.props.c18", {}),
+    "C18": ("gbv.props.c18", {}), "C19": ("gbv.props.c19", {}),
     "C08": ("gbv.props.sep", {}),
     "C09": ("gbv.props.c09", {}),
     "C10": ("gbv.props.c10", {}),
